@@ -832,6 +832,14 @@ func (en *Env) callExpr(e *ECall) Val {
 				return boolVal(and(not(eq(x.L[0], "0")), not(eq(x.L[1], "0"))))
 			}
 			return boolVal(not(eq(x.L[0], "0")))
+		case "inv":
+			// inv(x): the type invariant of the object x points to (true for nil and for types without one)
+			x := en.eval(e.Args[0])
+			t, _ := en.ex.typeInvTerm(en.fr, en.st, x)
+			if t == "" {
+				t = "true"
+			}
+			return boolVal(t)
 		case "aeadkey":
 			// aeadkey(c): base of the key slice the AEAD c was created from
 			x := en.eval(e.Args[0])
